@@ -44,12 +44,23 @@ def gen_cases(tier, seed):
     quick = tier == "quick"
     out = []
     offs = [(3, 4, 0), (0, 3, 4), (4, 0, 3), (1, 2, 2), (2, 1, 2), (2, 2, 1), (2, 3, 6), (6, 2, 3), (0, 0, 1), (1, 4, 8)]
-    for d in range(10 if quick else 60):
+    for d in range(18 if quick else 90):
         rng = cg.rng_for(seed, "C14", d)
         nsh = rng.randint(1, 3)
-        cens = [cg.center(rng, 1.5, 2) for _ in range(3)]
-        basis = [cg.shell(rng, rng.randint(0, 3), K=rng.randint(1, 2), M=rng.randint(1, 2), hi=50.0, lo=0.1,
-                          bits=10 if quick else 24, cen=rng.choice(cens)) for _ in range(nsh)]
+        wide = d % 3 == 2
+        cens = [cg.center(rng, 3.0 if wide else 1.5, 2) for _ in range(3)]
+        if wide:
+            # contracted shells mixing a diffuse and a tight primitive (in either order), on centres a few bohr apart
+            basis = []
+            for k in range(max(2, nsh)):
+                ex = [cg.exponent(rng, 0.15, 0.6, 10), cg.exponent(rng, 15.0, 60.0, 10)]
+                if rng.random() < 0.5:
+                    ex.reverse()
+                basis.append({"l": rng.randint(0, 2), "center": cens[k % 3], "exps": ex, "coeffs": [[cg.coeff(rng)], [cg.coeff(rng)]],
+                              "type": rng.choice(["cartesian", "spherical"])})
+        else:
+            basis = [cg.shell(rng, rng.randint(0, 3), K=rng.randint(1, 2), M=rng.randint(1, 2), hi=50.0, lo=0.1,
+                              bits=10 if quick else 24, cen=rng.choice(cens)) for _ in range(nsh)]
         nn = rng.randint(1, 5)
         nuclei = []
         for k in range(nn):
